@@ -56,3 +56,57 @@ def run(only_class=None):
 def partial_first_write():
     rp = run("partial-first-write")
     return bool(rp.get("confirmed"))
+
+
+PATTERNS = {"read": ["READ"], "write": ["WRITE"],
+            "read-then-write": ["READ", "WRITE"],
+            "write-then-read": ["WRITE", "READ"]}
+
+
+def _access_info(sig, pattern):
+    from psyclone.core import SingleVariableAccessInfo, AccessType
+    from psyclone.psyir.nodes import Reference
+    from psyclone.psyir.symbols import DataSymbol, REAL_TYPE
+    svai = SingleVariableAccessInfo(sig)
+    for loc, kind in enumerate(PATTERNS[pattern]):
+        node = Reference(DataSymbol(str(sig), REAL_TYPE))
+        svai.add_access_with_location(AccessType[kind], loc, node, None)
+    return svai
+
+
+def resolve_cases():
+    """Work lists for the real CallTreeUtils._resolve_calls_and_unknowns made
+    of plain variable accesses ('reference' records): one record, and every
+    ordered pair of access patterns for the same (module, variable).  Ground
+    truth: the variable must be reported as an output if some record writes
+    it, and as an input if some record does not write it first.  Yields
+    (case id, ok, detail)."""
+    import itertools
+    from psyclone.core import Signature
+    from psyclone.psyir.tools import CallTreeUtils, ReadWriteInfo
+    sig = Signature("tally")
+    lists = [[p] for p in PATTERNS] + \
+        [list(pq) for pq in itertools.permutations(PATTERNS, 2)]
+    for pats in lists:
+        infos = [_access_info(sig, p) for p in pats]
+        work = [("reference", "tally_mod", sig, a) for a in infos]
+        rwi = ReadWriteInfo()
+        CallTreeUtils()._resolve_calls_and_unknowns(list(work), rwi)
+        ins = {(m, str(s)) for m, s in rwi.read_list}
+        outs = {(m, str(s)) for m, s in rwi.write_list}
+        need_out = any(a.is_written() for a in infos)
+        need_in = any(not a.is_written_first() for a in infos)
+        key = ("tally_mod", "tally")
+        ok = (not need_out or key in outs) and (not need_in or key in ins)
+        yield ("+".join(pats), ok,
+               f"work list of accesses to tally_mod::tally with patterns "
+               f"{pats}: inputs {sorted(ins)}, outputs {sorted(outs)}; "
+               f"needed as input: {need_in}, as output: {need_out}")
+
+
+def run_resolve():
+    for cid, ok, detail in resolve_cases():
+        if not ok:
+            return {"confirmed": True, "input": {"work_list": cid},
+                    "observed": detail}
+    return {"confirmed": False}
